@@ -85,6 +85,9 @@ func (e *env) ghostVal(g *ghostDecl) Val {
 	var ss []string
 	for i, srt := range e.u.ghostSorts(t) {
 		gen := e.st.gen
+		if i := strings.Index(gen, "~"); i >= 0 {
+			gen = gen[:i] // `modifies *` of a callee does not reach ghost state
+		}
 		if e.st.cutMode && !e.u.mayModify(key) {
 			gen = ""
 		}
